@@ -41,6 +41,12 @@ function p.loaddata(frame)
   local ok = pcall(function() d.n = (d.n or 0) + 1 end)
   return tostring(old)
 end
+function p.loadjson(frame)
+  local d = mw.loadJsonData("Module:cdata.json")
+  local old = d.n
+  local ok = pcall(function() d.n = (d.n or 0) + 1 end)
+  return tostring(old)
+end
 function p.retained(frame) return require("Module:utilities").bump() end
 function p.required(frame) return require("Module:chelper").bump() end
 function p.redefine(frame)
@@ -74,7 +80,7 @@ CHANNELS = {
     "string_meta": "nil", "math_tbl": "nil", "table_tbl": "nil",
     "os_tbl": "nil", "mw_global": "nil", "mw_require": "nil",
     "mw_text": "nil", "mw_ustring": "nil", "package_loaded": "nil",
-    "loaddata": "nil", "retained": "1", "required": "1", "redefine": "XY",
+    "loaddata": "nil", "loadjson": "0", "retained": "1", "required": "1", "redefine": "XY",
     "gfunc": "nil",
 }
 
@@ -158,6 +164,8 @@ def install(ctx, lib_extra=None):
     ctx.add_page("Module:utilities", 828, HELPER, model="Scribunto")
     ctx.add_page("Module:chelper", 828, HELPER, model="Scribunto")
     ctx.add_page("Module:cdata", 828, CDATA, model="Scribunto")
+    ctx.add_page("Module:cdata.json", 828, '{"n": 0, "list": [1, 2, 3]}',
+                 model="json")
     for k, v in TEMPLATES.items():
         ctx.add_page("Template:" + k, 10, v, need_pre_expand=k in ("tsec", "ttab"))
     ctx.db_conn.commit()
